@@ -18,8 +18,9 @@
   * `bpoly_roundtrip_generic`, `prime_bpoly_roundtrip`, `bin_bpoly_roundtrip`,
     `ext_bpoly_roundtrip` — bivariate polynomials, every monomial order, with or without ideal
     (exponents `< 2^64`, as `BValid` demands).
-  Still only stated (`C15.C15_full`, and `C15Full_remaining` below): additivity and the notational
-  variations.
+  * `upoly_additive_generic`, `prime_/bin_/ext_upoly_additive` — univariate additivity.
+  Still only stated (`C15.C15_full`, and `C15Full_remaining` below): the notational variations,
+  bivariate additivity.
 -/
 import Algobra.Props.C15
 import Algobra.Props.C03
@@ -27,6 +28,7 @@ import Algobra.Proofs.ParseRTPoly
 import Algobra.Proofs.ParseRTCoef
 import Algobra.Proofs.ParseRTBPoly
 import Algobra.Proofs.BPolyPerm
+import Algobra.Proofs.ParseRTAdd
 import Algobra.Proofs.ExtField
 
 namespace Algobra.C15
@@ -615,7 +617,176 @@ example : ∃ g, BPoly.parse { F := primeOps 7, ord := (Order.mk (.wdeglex 1 1) 
     decide +kernel
   rwa [e] at h
 
-/-! ### 7. what remains of `C15_full` -/
+/-! ### 7. additivity (univariate)
+
+  `polynomialStringToMap` accumulates repeated degrees in its map (`UPoly.mapAdd`), so the printed
+  forms of two polynomials joined by " + " parse to their sum (`ParseRT.upoly_parse_add`). -/
+
+/-- Additivity over any lawful coefficient record with a `CoefRT` coefficient syntax; the modulus
+    (if any) is well-formed, monic, of degree ≥ 1. -/
+theorem upoly_additive_generic {α K : Type} [Field K] {F : FOps α} (L : Lawful F K)
+    (H : CoefRT F L.valid) (hz1 : F.toStr F.zero = "0") (hz2 : ¬ F.nTerms F.zero > 1)
+    (hown : ∀ w, F.ownVar = some w → AdmissibleName w)
+    {v : String} (hv : AdmissibleName v) (hun : ∀ w, F.ownVar = some w → Unconfusable v w)
+    (mod : Option (UPoly α))
+    (hmod : ∀ g, mod = some g → WF L g ∧ (toPoly L g).Monic ∧ 1 ≤ (toPoly L g).natDegree)
+    {f₁ f₂ : UPoly α} (hf₁ : WF L f₁) (hf₂ : WF L f₂) (hl₁ : f₁.length ≤ 2 ^ 63)
+    (hl₂ : f₂.length ≤ 2 ^ 63)
+    (hr₁ : reduceIn { F := F, varName := v, modulus := mod } f₁ = some f₁)
+    (hr₂ : reduceIn { F := F, varName := v, modulus := mod } f₂ = some f₂) :
+    ∃ g, UPoly.parse { F := F, varName := v, modulus := mod }
+        (UPoly.toStr F v f₁ ++ " + " ++ UPoly.toStr F v f₂) = .ok (some g) ∧
+      UPoly.equal F g (UPoly.add F f₁ f₂) = true := by
+  have hdir : UPoly.directOK F v = true := by
+    unfold UPoly.directOK
+    rw [(admissible_iff_simple v).1 hv, Bool.true_and]
+    cases hw : F.ownVar with
+    | none => rfl
+    | some w => exact (admissible_iff_simple w).1 (hown w hw)
+  obtain ⟨b, hb, hbp, hparse⟩ := upoly_parse_add L H hz1 hz2 hdir
+    (fun w X hw => strip_none_of_unconfusable (hun w hw) X) mod hf₁ hf₂ hl₁ hl₂
+  have hsum := add_wf L hf₁ hf₂.1
+  have hsump := toPoly_add L hf₁ hf₂.1
+  rw [hparse]
+  cases hm : mod with
+  | none =>
+    refine ⟨b, by simp [reduceIn], ?_⟩
+    exact (equal_iff L hb hsum).2 (by rw [hbp, hsump])
+  | some g =>
+    subst hm
+    obtain ⟨hg1, hg2, hg3⟩ := hmod g rfl
+    have Q : IsQuot { F := F, varName := v, modulus := some g } L g := ⟨rfl, hg1, hg2, hg3⟩
+    obtain ⟨b', hb1, hb2, hb3, _⟩ := reduceIn_spec Q hb
+    obtain ⟨f1', e1, _, _, d1⟩ := reduceIn_spec Q hf₁
+    obtain ⟨f2', e2, _, _, d2⟩ := reduceIn_spec Q hf₂
+    rw [hr₁] at e1; rw [hr₂] at e2
+    injection e1 with e1; injection e2 with e2
+    subst e1 e2
+    refine ⟨b', by rw [hb1], ?_⟩
+    apply (equal_iff L hb2 hsum).2
+    rw [hb3, hbp, hsump]
+    exact (Polynomial.modByMonic_eq_self_iff hg2).2 
+      (lt_of_le_of_lt (Polynomial.degree_add_le _ _) (max_lt d1 d2))
+
+/-- what `ModOK` gives for a prime field: the modulus is well-formed, monic, of degree ≥ 1 -/
+theorem prime_modOK {p : Nat} [Fact p.Prime] (h32 : p - 1 < 2 ^ 32) {mod : Option (UPoly Nat)}
+    (hm : ModOK (primeSpec p) mod) :
+    ∀ g, mod = some g → WF (primeLawfulFact p h32) g ∧ (toPoly (primeLawfulFact p h32) g).Monic ∧
+      1 ≤ (toPoly (primeLawfulFact p h32) g).natDegree := by
+  intro g hg
+  obtain ⟨hcanon, hval, hlen, hone⟩ := hm g hg
+  have hwf : WF (primeLawfulFact p h32) g := ⟨hval, hcanon⟩
+  have hnd := natDegree_toPoly (primeLawfulFact p h32) hwf
+  refine ⟨hwf, ?_, by rw [hnd]; unfold UPoly.ld; omega⟩
+  unfold Polynomial.Monic Polynomial.leadingCoeff
+  rw [hnd, coeff_toPoly_coef]
+  have hv : (primeLawfulFact p h32).valid (UPoly.lc (primeOps p) g) :=
+    ParseRT.coef_valid (primeLawfulFact p h32) hval _
+  exact ((primeLawfulFact p h32).isOne_iff _ hv).1 hone
+
+/-- `UPolyRoundTrip` clause 2 (additivity) over a prime field, every admissible variable name,
+    every ring or quotient ring with an admissible modulus, at most `2^63` coefficients -/
+theorem prime_upoly_additive {p : Nat} (hp : p.Prime) (h32 : p - 1 < 2 ^ 32) {v : String}
+    (hv : AdmissibleName v) (mod : Option (UPoly Nat)) (hm : ModOK (primeSpec p) mod)
+    {f₁ f₂ : UPoly Nat}
+    (hf₁ : UValid (primeSpec p) { F := primeOps p, varName := v, modulus := mod } f₁)
+    (hf₂ : UValid (primeSpec p) { F := primeOps p, varName := v, modulus := mod } f₂)
+    (hl₁ : f₁.length ≤ 2 ^ 63) (hl₂ : f₂.length ≤ 2 ^ 63) :
+    ∃ g, UPoly.parse { F := primeOps p, varName := v, modulus := mod }
+        (UPoly.toStr (primeOps p) v f₁ ++ " + " ++ UPoly.toStr (primeOps p) v f₂) = .ok (some g) ∧
+      UPoly.equal (primeOps p) g (UPoly.add (primeOps p) f₁ f₂) = true := by
+  have := Fact.mk hp
+  exact upoly_additive_generic (primeLawfulFact p h32) (prime_coefRT hp.two_le (by omega))
+    (by show toString (0 : Nat) = "0"; decide) (by show ¬ (1 > 1); omega)
+    (fun w hw => by cases hw) hv (fun w hw => by cases hw) mod (prime_modOK h32 hm)
+    ⟨hf₁.2.1, hf₁.1⟩ ⟨hf₂.2.1, hf₂.1⟩ hl₁ hl₂ hf₁.2.2 hf₂.2.2
+
+-- non-vacuity: (3X^2 + X + 5) + (4X^2 + 6) = 0X^2 + X + 4 = X + 4 in F_7[X]: degree 2 cancels
+example : ∃ g, UPoly.parse { F := primeOps 7, varName := "X", modulus := none }
+      "3X^2 + X + 5 + 4X^2 + 6" = .ok (some g) ∧
+    UPoly.equal (primeOps 7) g [4, 1] = true := by
+  have h := prime_upoly_additive (p := 7) (by norm_num) (by norm_num) (v := "X")
+    ⟨'X', [], by decide, by decide, by decide⟩ none (fun g hg => by cases hg)
+    (f₁ := [5, 1, 3]) (f₂ := [6, 0, 4])
+    ⟨⟨by simp, fun _ => by decide⟩, fun c hc => by
+        have : c < 7 := by simp at hc; omega
+        exact this, rfl⟩
+    ⟨⟨by simp, fun _ => by decide⟩, fun c hc => by
+        have : c < 7 := by simp at hc; omega
+        exact this, rfl⟩
+    (by decide) (by decide)
+  have e1 : UPoly.toStr (primeOps 7) "X" [5, 1, 3] ++ " + " ++ UPoly.toStr (primeOps 7) "X" [6, 0, 4] =
+      "3X^2 + X + 5 + 4X^2 + 6" := by decide +kernel
+  have e2 : UPoly.add (primeOps 7) [5, 1, 3] [6, 0, 4] = [4, 1] := by decide +kernel
+  rwa [e1, e2] at h
+
+/-- what `ModOK` gives in general -/
+theorem modOK_lawful {α K : Type} [Field K] {S : FieldSpec α} (L : Lawful S.F K)
+    (hL : ∀ a, S.Valid a → L.valid a) {mod : Option (UPoly α)} (hm : ModOK S mod) :
+    ∀ g, mod = some g → WF L g ∧ (toPoly L g).Monic ∧ 1 ≤ (toPoly L g).natDegree := by
+  intro g hg
+  obtain ⟨hcanon, hval, hlen, hone⟩ := hm g hg
+  have hav : AllValid L g := fun c hc => hL c (hval c hc)
+  have hwf : WF L g := ⟨hav, hcanon⟩
+  have hnd := natDegree_toPoly L hwf
+  refine ⟨hwf, ?_, by rw [hnd]; unfold UPoly.ld; omega⟩
+  unfold Polynomial.Monic Polynomial.leadingCoeff
+  rw [hnd, coeff_toPoly_coef]
+  exact (L.isOne_iff _ (ParseRT.coef_valid L hav _)).1 hone
+
+/-- additivity over a binary field -/
+theorem bin_upoly_additive {K : Type} [Field K] {n m : Nat} {w : String}
+    (L : Lawful (binOps n m w) K) (hL : ∀ a, L.valid a ↔ a < 2 ^ n) (hw : AdmissibleName w)
+    (hn : n < 64) {v : String} (hv : AdmissibleName v) (hun : Unconfusable v w)
+    (mod : Option (UPoly Nat)) (hm : ModOK (binSpec n m w) mod) {f₁ f₂ : UPoly Nat}
+    (hf₁ : UValid (binSpec n m w) { F := binOps n m w, varName := v, modulus := mod } f₁)
+    (hf₂ : UValid (binSpec n m w) { F := binOps n m w, varName := v, modulus := mod } f₂)
+    (hl₁ : f₁.length ≤ 2 ^ 63) (hl₂ : f₂.length ≤ 2 ^ 63) :
+    ∃ g, UPoly.parse { F := binOps n m w, varName := v, modulus := mod }
+        (UPoly.toStr (binOps n m w) v f₁ ++ " + " ++ UPoly.toStr (binOps n m w) v f₂) =
+          .ok (some g) ∧
+      UPoly.equal (binOps n m w) g (UPoly.add (binOps n m w) f₁ f₂) = true := by
+  have hown : ∀ w', (binOps n m w).ownVar = some w' → w' = w := by
+    intro w' h; injection h with e; exact e.symm
+  exact upoly_additive_generic L ((bin_coefRT hw m hn).mono fun a ha => (hL a).1 ha) rfl
+    (by show ¬ popCount 0 > 1; rw [ParseRT.popCount_zero]; omega)
+    (fun w' h => by rw [hown w' h]; exact hw) hv (fun w' h => by rw [hown w' h]; exact hun) mod
+    (modOK_lawful (S := binSpec n m w) L (fun a ha => (hL a).2 ha) hm)
+    ⟨fun c hc => (hL c).2 (hf₁.2.1 c hc), hf₁.1⟩ ⟨fun c hc => (hL c).2 (hf₂.2.1 c hc), hf₂.1⟩
+    hl₁ hl₂ hf₁.2.2 hf₂.2.2
+
+section ExtAdd
+variable {p : Nat} [Fact p.Prime] {h32 : p - 1 < 2 ^ 32} {n : Nat} {g : List Nat}
+
+/-- additivity over an extension field -/
+theorem ext_upoly_additive {K : Type} [Field K] (M : ExtField.Modulus h32 n g) (hn : n ≤ 2 ^ 63)
+    (L : Lawful (extOps p n g) K) (hL : ∀ a, L.valid a ↔ ExtField.Valid h32 n a)
+    {v : String} (hv : AdmissibleName v) (hun : Unconfusable v "a")
+    (mod : Option (UPoly (UPoly Nat))) (hm : ModOK (extSpec p n g) mod)
+    {f₁ f₂ : UPoly (UPoly Nat)}
+    (hf₁ : UValid (extSpec p n g) { F := extOps p n g, varName := v, modulus := mod } f₁)
+    (hf₂ : UValid (extSpec p n g) { F := extOps p n g, varName := v, modulus := mod } f₂)
+    (hl₁ : f₁.length ≤ 2 ^ 63) (hl₂ : f₂.length ≤ 2 ^ 63) :
+    ∃ g', UPoly.parse { F := extOps p n g, varName := v, modulus := mod }
+        (UPoly.toStr (extOps p n g) v f₁ ++ " + " ++ UPoly.toStr (extOps p n g) v f₂) =
+          .ok (some g') ∧
+      UPoly.equal (extOps p n g) g' (UPoly.add (extOps p n g) f₁ f₂) = true := by
+  have hown : ∀ w', (extOps p n g).ownVar = some w' → w' = "a" := by
+    intro w' h; injection h with e; exact e.symm
+  have hV : ∀ a, (extSpec p n g).Valid a → L.valid a := fun a ha =>
+    (hL a).2 ⟨⟨ha.2.2, ha.1⟩, ha.2.1⟩
+  exact upoly_additive_generic L ((ext_coefRT M hn).mono fun a ha => (hL a).1 ha)
+    (by show UPoly.toStr (primeOps p) "a" [0] = "0"; rfl)
+    (by show ¬ UPoly.nTerms (primeOps p) [0] > 1; simp [UPoly.nTerms, UPoly.isZero, primeOps])
+    (fun w' h => by rw [hown w' h]; exact ⟨'a', [], by decide, by decide, by decide⟩) hv
+    (fun w' h => by rw [hown w' h]; exact hun) mod
+    (modOK_lawful (S := extSpec p n g) L hV hm)
+    ⟨fun c hc => hV c (hf₁.2.1 c hc), hf₁.1⟩ ⟨fun c hc => hV c (hf₂.2.1 c hc), hf₂.1⟩
+    hl₁ hl₂ hf₁.2.2 hf₂.2.2
+
+end ExtAdd
+
+/-! ### 8. what remains of `C15_full` -/
 
 /-- `UPolyRoundTrip` of `Props/C15.lean` with the bound on the number of coefficients that the
     exponent reader (`strconv.ParseInt`) imposes: an exponent `≥ 2^63` is a range error, so without
@@ -630,12 +801,15 @@ def UPolyRoundTripB {α : Type} (S : FieldSpec α) : Prop :=
       ∃ g, UPoly.parse R (UPoly.toStr S.F v f₁ ++ " + " ++ UPoly.toStr S.F v f₂) = .ok (some g) ∧
         UPoly.equal S.F g (UPoly.add S.F f₁ f₂) = true)
 
-/-- NOT PROVED. What is still only validated by the correspondence run.  Of `UPolyRoundTripB` and
-    `BPolyRoundTrip` the instance `N = {}` (the printers' own notation) of the first clause IS
-    proved for all three field families, every ring/quotient ring, every monomial order
-    (`prime_/bin_/ext_upoly_roundtrip_beq`, `prime_/bin_/ext_bpoly_roundtrip`, and the `*_define`
-    corollaries in `Props/C15FullDefine.lean`); missing are the other notations (`*`, no `^`,
-    blanks around `+`, letter case, `y` before `x`) and additivity (second clauses). -/
+/-- NOT PROVED. What is still only validated by the correspondence run.  Proved of the statement
+    below, for all three field families, every ring/quotient ring, every monomial order, every
+    ideal: the instance `N = {}` (the printers' own notation) of the first clauses of
+    `UPolyRoundTripB` and `BPolyRoundTrip` (`prime_/bin_/ext_upoly_roundtrip_beq`,
+    `prime_/bin_/ext_bpoly_roundtrip`), and the second clause (additivity) of `UPolyRoundTripB`
+    (`prime_/bin_/ext_upoly_additive`); corollaries at the fields `Define` returns are in
+    `Props/C15FullDefine.lean`.  Missing: the other notations `N` (`*`, no `^`, blanks around
+    `+`, letter case, `y` before `x`) for univariate and bivariate polynomials, and bivariate
+    additivity (second clause of `BPolyRoundTrip`). -/
 def C15Full_remaining : Prop :=
   (∀ p, Define.prime p = .ok (.prime p) →
     UPolyRoundTripB (primeSpec p) ∧ BPolyRoundTrip (primeSpec p)) ∧
